@@ -519,10 +519,6 @@ func checkC20Closure(cx *Ctx, r *Report, cons, cl *ssa.Function) {
 	w, fx := cx.W, cx.Fx
 	key := w.FuncKey(cons)
 	exp, ok := c20table[fnName(cons)]
-	if !ok {
-		r.Undecided("R-CHK-COND", key, w.FnPos(cons), "step kind without a documented failing condition in the checker's table")
-		return
-	}
 	nm := &c20namer{fx: fx, fn: cl}
 	if fnName(cons) == "WithValuesNotEmptyCheck" {
 		// the search for an empty element may be the library's (slices.Contains(values(), "")) instead of a loop
@@ -570,6 +566,13 @@ func checkC20Closure(cx *Ctx, r *Report, cons, cl *ssa.Function) {
 	}
 	r.Check(!stateWrite, "R-CHK-REPEAT", key, w.FnPos(cl), "step closure writes no captured or package state", "step closure writes captured or package state: re-evaluating the chain would not repeat the same behaviour")
 
+	if !ok {
+		// a step kind the property does not list (a new With... constructor): there is no documented condition to hold
+		// it to; what the property says of every step is decided - it reports failure exactly on the paths on which it
+		// ran its failure callback, and ran it once
+		checkC20UnlistedKind(cx, r, cons, cl)
+		return
+	}
 	paths, okp := enumPaths(cl, nil, 256)
 	if !okp {
 		r.Undecided("R-CHK-COND", key, w.FnPos(cl), "too many paths in step closure")
@@ -1168,4 +1171,79 @@ func isConstTrueFunc(v ssa.Value) bool {
 		}
 	}
 	return len(rets) > 0
+}
+
+// checkC20UnlistedKind: the general clauses for a step kind without an entry in the table of documented conditions.
+func checkC20UnlistedKind(cx *Ctx, r *Report, cons, cl *ssa.Function) {
+	w, fx := cx.W, cx.Fx
+	key := w.FuncKey(cons)
+	// the failure callback: the constructor's parameter of type func()
+	var cb *ssa.FreeVar
+	for _, fv := range cl.FreeVars {
+		cell := fx.ownerCell(fv)
+		if cell == nil {
+			continue
+		}
+		if sig, isSig := derefType(cell.Type()).Underlying().(*types.Signature); isSig && sig.Params().Len() == 0 && sig.Results().Len() == 0 {
+			if cb != nil {
+				r.Undecided("R-CHK-COND", key, w.FnPos(cons), "unlisted step kind with more than one func() parameter: which one is the failure callback cannot be told")
+				return
+			}
+			cb = fv
+		}
+	}
+	if cb == nil {
+		r.Undecided("R-CHK-COND", key, w.FnPos(cons), "unlisted step kind without a failure callback parameter")
+		return
+	}
+	paths, okp := enumPaths(cl, nil, 256)
+	if !okp {
+		r.Undecided("R-CHK-COND", key, w.FnPos(cl), "too many paths in step closure")
+		return
+	}
+	bad := ""
+	n := 0
+	for _, p := range paths {
+		if !p.feasible() {
+			continue
+		}
+		ret := p.Return()
+		if ret == nil || len(ret.Results) != 1 {
+			continue
+		}
+		ap := APath{Path: p, Ret: ret}
+		k, isK := fx.retVal(&ap, 0).(*ssa.Const)
+		if !isK || k.Value == nil {
+			bad = "the verdict of the step is not a constant on a path (" + w.InstrPos(ret) + ")"
+			break
+		}
+		failed := k.Value.ExactString() == "true"
+		calls := 0
+		for _, in := range p.Instrs() {
+			c, isC := in.(ssa.CallInstruction)
+			if !isC {
+				continue
+			}
+			if ld, isLd := c.Common().Value.(*ssa.UnOp); isLd && ld.X == ssa.Value(cb) {
+				calls++
+				if _, isCall := in.(*ssa.Call); !isCall {
+					bad = "the failure callback is deferred or started as a goroutine"
+				}
+			}
+		}
+		n++
+		if failed && calls != 1 || !failed && calls != 0 {
+			bad = fmt.Sprintf("a path reports failed=%v after running the failure callback %d time(s) (%s)", failed, calls, w.InstrPos(ret))
+		}
+	}
+	for _, b := range cl.Blocks {
+		for _, in := range b.Instrs {
+			if c, isC := in.(ssa.CallInstruction); isC {
+				if ld, isLd := c.Common().Value.(*ssa.UnOp); isLd && ld.X == ssa.Value(cb) && fx.info(cl).reachable(b, b) {
+					bad = "the failure callback is called inside a loop"
+				}
+			}
+		}
+	}
+	r.Check(bad == "" && n > 0, "R-CHK-COND", key, w.FnPos(cons), "step kind not listed by the property: reports failure exactly where it ran its failure callback, once", bad)
 }
